@@ -7,8 +7,9 @@ import FitProps.C07
 (D') `FitModel/DecHist.lean` — `DecHist.history`, a history of calls as ONE program over the read buffer, the object of
 `C08_chunk_indep_ops` (framing level).
 
-`Link_dechist_eq_api_partial`: for the calls that do not enter a sequence's record loop the per-call results of (D') on the
-exact-n reader ARE those of (C) on the same bytes, in the common observable `LinkH.Tok`. The full statement
+`Link_dechist_eq_api_partial`: for every list of `Decode`, `DecodeWithContext` (context live or cancelled before the call),
+`PeekFileHeader`, `Discard`, `Next` the per-call results of (D') on the exact-n reader ARE those of (C) on the same bytes, in the
+common observable `LinkH.Tok`. The full statement
 (`Link_dechist_eq_api_statement`, every call of (D')'s alphabet) is kept as a `def`: see notes/links.md for what is missing.
 Corollaries: C07's conclusion and chunk independence of what (C) returns, over ANY clean fragmentation and buffer size.
 -/
@@ -27,41 +28,47 @@ def Link_dechist_eq_api_statement : Prop :=
     ∃ n, n ≤ ops.length ∧ (DecHist.Op.checkIntegrity ∉ ops → n = ops.length) ∧
       (runExact (DecHist.history o.chk fuelCi ops) bs).res.map tokH = (toksC (Api.fresh o bs) (ops.map apiOp)).take n
 
-/-- **(C) = (D') call by call, outside the record loop.** For every list of `PeekFileHeader`, `Discard`, `Next` and
-`DecodeWithContext` with a cancelled context (`noRec`), every option set and every byte stream (bytes < 256; nothing else:
-neither the length bound nor the factory hypotheses are needed for these calls): what each call returns in (D')'s history
-program run on the exact-n reader — file header, nil, `Next`'s bool, error class, and the sticky answers once the decoder is
-dead — is what the same call returns in (C)'s `run` on the same bytes. By the state correspondence `LinkH.Rel` carried
-through every call (`LinkH.run_link`): remaining stream, sticky error, the `sync.Once` and its header, position in the
-sequence, running checksum, `d.n ≠ 0`. -/
+/-- **(C) = (D') call by call.** For every list of `Decode`, `DecodeWithContext` (context live, or cancelled before the call),
+`PeekFileHeader`, `Discard` and `Next` (`linked`: the alphabet of (D') without `PeekFileId`, `DecodeWithContext` cancelled while
+it runs and `CheckIntegrity`), every option set and every byte stream in the common domain of `Link_decprog_eq_api` (bytes < 256,
+below 4 GiB, `FacOK`, `facBtOK`, `facFdOK`): what each call returns in (D')'s history program run on the exact-n reader — FIT
+header and file CRC, file header, nil, `Next`'s bool, error class, and the sticky answers once the decoder is dead — is what the
+same call returns in (C)'s `run` on the same bytes. By the state correspondence `LinkH.Rel` carried through every call
+(`LinkH.run_link`): remaining stream, sticky error, the `sync.Once` and its header, position in the sequence, running checksum,
+`d.n ≠ 0`, empty definition / description tables and accumulator at a sequence boundary, and (D')'s events being those of the
+completed `Decode` calls; inside `Decode` the record loop is `messages_link` transferred to `DecHist.messages`
+(`LinkH.messagesH_link`). -/
 theorem Link_dechist_eq_api_partial (o : Opts) (bs : List Nat) (ops : List DecHist.Op) (fuelCi : Nat) (hb : DecApi.IsBytes bs)
-    (hops : ∀ op ∈ ops, noRec op = true) :
+    (hlen : bs.length < 4294967296) (hfac : FacOK o.fac) (hbt : facBtOK o.fac = true) (hfd : facFdOK o.fac = true)
+    (hops : ∀ op ∈ ops, linked op = true) :
     (runExact (DecHist.history o.chk fuelCi ops) bs).res.map tokH = toksC (Api.fresh o bs) (ops.map apiOp) := by
-  have := run_link o fuelCi ops { chk := o.chk } (Api.fresh o bs) (Rel.new o bs hb) hops
+  have := run_link o hfac hbt hfd fuelCi ops { chk := o.chk } (Api.fresh o bs) (Rel.new o bs hb hlen) hops
   rw [show (Api.fresh o bs).d.rest = bs from rfl] at this
   simpa [DecHist.history] using this
 
-/-- **CHUNK INDEPENDENCE OF WHAT THE API RETURNS, for every history outside the record loop (C08 ∘ link).** Whatever clean
+/-- **CHUNK INDEPENDENCE OF WHAT THE API RETURNS, for every linked history (C08 ∘ link).** Whatever clean
 schedule delivers the stream, whatever the buffer size and the previous state of the buffer: the history program over the
 read buffer does not panic and every call returns what (C)'s `run` returns on the bytes. -/
 theorem Link_C08_ops_values_partial (o : Opts) (ops : List DecHist.Op) (fuelCi : Nat) (b : RB) (s : Sched) (size : Int)
-    (hs : Clean s) (hb : ReadBuffer.IsBytes (bytesOf s)) (hops : ∀ op ∈ ops, noRec op = true) :
+    (hs : Clean s) (hb : ReadBuffer.IsBytes (bytesOf s)) (hlen : (bytesOf s).length < 4294967296) (hfac : FacOK o.fac)
+    (hbt : facBtOK o.fac = true) (hfd : facFdOK o.fac = true) (hops : ∀ op ∈ ops, linked op = true) :
     ∃ out, runRB (DecHist.history o.chk fuelCi ops) (b.reset s size) = .done out ∧
       out.res.map tokH = toksC (Api.fresh o (bytesOf s)) (ops.map apiOp) := by
   obtain ⟨out, e, m, _⟩ := runRB_refines DecHist.Out.merge _ (C08.C08_request_bound_ops o.chk fuelCi ops) _ _
     (reset_inv b s size) hs hb
   refine ⟨out, e, ?_⟩
   rw [← tokH_merge_list, m, tokH_merge_list]
-  exact Link_dechist_eq_api_partial o _ ops fuelCi hb hops
+  exact Link_dechist_eq_api_partial o _ ops fuelCi hb hlen hfac hbt hfd hops
 
 /-- … hence any two clean fragmentations, buffer sizes and previous buffer states give the same per-call results -/
 theorem Link_C08_ops_values_partial_two (o : Opts) (ops : List DecHist.Op) (fuelCi : Nat) (b₁ b₂ : RB) (s₁ s₂ : Sched)
     (size₁ size₂ : Int) (h₁ : Clean s₁) (h₂ : Clean s₂) (hb : ReadBuffer.IsBytes (bytesOf s₁)) (heq : bytesOf s₁ = bytesOf s₂)
-    (hops : ∀ op ∈ ops, noRec op = true) :
+    (hlen : (bytesOf s₁).length < 4294967296) (hfac : FacOK o.fac) (hbt : facBtOK o.fac = true) (hfd : facFdOK o.fac = true)
+    (hops : ∀ op ∈ ops, linked op = true) :
     ∃ o₁ o₂, runRB (DecHist.history o.chk fuelCi ops) (b₁.reset s₁ size₁) = .done o₁ ∧
       runRB (DecHist.history o.chk fuelCi ops) (b₂.reset s₂ size₂) = .done o₂ ∧ o₁.res.map tokH = o₂.res.map tokH := by
-  obtain ⟨o₁, e₁, m₁⟩ := Link_C08_ops_values_partial o ops fuelCi b₁ s₁ size₁ h₁ hb hops
-  obtain ⟨o₂, e₂, m₂⟩ := Link_C08_ops_values_partial o ops fuelCi b₂ s₂ size₂ h₂ (heq ▸ hb) hops
+  obtain ⟨o₁, e₁, m₁⟩ := Link_C08_ops_values_partial o ops fuelCi b₁ s₁ size₁ h₁ hb hlen hfac hbt hfd hops
+  obtain ⟨o₂, e₂, m₂⟩ := Link_C08_ops_values_partial o ops fuelCi b₂ s₂ size₂ h₂ (heq ▸ hb) (heq ▸ hlen) hfac hbt hfd hops
   exact ⟨o₁, o₂, e₁, e₂, by rw [m₁, m₂, heq]⟩
 
 theorem apiOp_small (ops : List DecHist.Op) : ∀ op ∈ ops.map apiOp, OpSmall op := by
@@ -69,16 +76,16 @@ theorem apiOp_small (ops : List DecHist.Op) : ∀ op ∈ ops.map apiOp, OpSmall 
   obtain ⟨x, _, rfl⟩ := List.mem_map.mp hop
   cases x <;> trivial
 
-/-- **C07 OVER ANY READER (C07 ∘ C08 ∘ link), outside the record loop.** History independence as the decoder over the read
-buffer shows it: for every history of `PeekFileHeader` / `Discard` / `Next` / cancelled `DecodeWithContext` outside the class
-of KF-C07-4, every clean fragmentation of the stream, every buffer size and previous buffer state, the history program ends
+/-- **C07 OVER ANY READER (C07 ∘ C08 ∘ link).** History independence as the decoder over the read buffer shows it: for every
+history of `Decode` / `DecodeWithContext` (live or cancelled before the call) / `PeekFileHeader` / `Discard` / `Next` outside the
+class of KF-C07-4, every clean fragmentation of the stream, every buffer size and previous buffer state, the history program ends
 without panic and every call returns what C07's specification — new decoders only — demands of it. -/
 theorem Link_C07_any_reader_partial (o : Opts) (ops : List DecHist.Op) (fuelCi : Nat) (b : RB) (s : Sched) (size : Int)
-    (hs : Clean s) (hsm : Small (bytesOf s)) (hf : FacOK o.fac) (hno : C07.NoOverrun o (bytesOf s) (ops.map apiOp))
-    (hops : ∀ op ∈ ops, noRec op = true) :
+    (hs : Clean s) (hsm : Small (bytesOf s)) (hf : FacOK o.fac) (hbt : facBtOK o.fac = true) (hfd : facFdOK o.fac = true)
+    (hno : C07.NoOverrun o (bytesOf s) (ops.map apiOp)) (hops : ∀ op ∈ ops, linked op = true) :
     ∃ out, runRB (DecHist.history o.chk fuelCi ops) (b.reset s size) = .done out ∧
       ∀ p ∈ (out.res.map tokH).zip (specRun (Spec.fresh o (bytesOf s)) (ops.map apiOp)), ∀ r, p.2 = some r → p.1 = tokC r.1 := by
-  obtain ⟨out, e, m⟩ := Link_C08_ops_values_partial o ops fuelCi b s size hs hsm.1 hops
+  obtain ⟨out, e, m⟩ := Link_C08_ops_values_partial o ops fuelCi b s size hs hsm.1 hsm.2 hf hbt hfd hops
   refine ⟨out, e, ?_⟩
   have hag := C07.C07_history_indep_partial o (bytesOf s) (ops.map apiOp) hsm hf (apiOp_small ops) hno
   rw [m]
@@ -90,12 +97,12 @@ theorem Link_C07_any_reader_partial (o : Opts) (ops : List DecHist.Op) (fuelCi :
   show tokC q.1.1 = tokC r.1
   rw [this]
 
-/-- non-vacuity: the history PeekFileHeader, Next, Discard, Next, PeekFileHeader on C04's sample file (one sequence) lies in
-the sub-alphabet and returns header, true, nil, false, end of stream — in both models -/
-example : (runExact (DecHist.history true 3 [.peekHeader, .next, .discard, .next, .peekHeader]) C04.sampleFit).res.map tokH =
-      toksC (Api.fresh {} C04.sampleFit) [.peekHeader, .next, .discard, .next, .peekHeader] ∧
-    ((toksC (Api.fresh {} C04.sampleFit) [.peekHeader, .next, .discard, .next, .peekHeader]).drop 1) =
-      [.bool true, .done, .bool false, .err .eof] := by
+/-- non-vacuity: the history PeekFileHeader, Next, Decode, Next, Decode on C04's sample file (one sequence, two messages) with the
+standard factory lies in the linked alphabet and returns header, true, the FIT, false, end of stream — in both models -/
+example : (runExact (DecHist.history true 3 [.peekHeader, .next, .decode, .next, .decode]) C04.sampleFit).res.map tokH =
+      toksC (Api.fresh { fac := stdFactory } C04.sampleFit) [.peekHeader, .next, .decode, .next, .decode] ∧
+    ((toksC (Api.fresh { fac := stdFactory } C04.sampleFit) [.peekHeader, .next, .decode, .next, .decode]).map fun t =>
+      match t with | .fit _ _ => 1 | .bool true => 2 | .bool false => 3 | .err .eof => 4 | .header _ => 5 | _ => 0) = [5, 2, 1, 3, 4] := by
   decide +kernel
 
 end Fit.Links
